@@ -5,6 +5,32 @@ ROOT = os.path.dirname(os.path.dirname(os.path.abspath(__file__)))
 
 # id -> (category, technique, level text, level note, design_ref)
 CHECKS = {
+ "C01": ("exploration",
+         "bounded-exhaustive enumeration of expression programs (<=3-4 operators) on the real Dual, lock-step against a reference model",
+         "Every expression program with at most 3 operators (4 in the thorough tier) over 6 leaves, 10 unary and 4 binary operators in all float/dual operand mixes and owned/borrowed forms is run on the real code and compared with plain f64 evaluation and the true gradient; complete within that bound, no sampling.",
+         "Trusted: RefDual chain-rule model (validated by finite differences on all <=2-operator programs); statrs for the normal cdf; leaf value table.",
+         "DESIGN.md §4 C01"),
+ "C02": ("exploration",
+         "bounded-exhaustive enumeration of expression programs on the real Dual2 run in lock step with Dual, against a full-Hessian reference model",
+         "Same program space as C01 on Dual2: value, gradient, every ordered pair of the Hessian (symmetry included), equality with the first-order run, and lossless down-conversion are checked for every program with <= 3 (4) operators.",
+         "Trusted: RefDual full-Hessian model (validated by second-order finite differences on all <=2-operator programs).",
+         "DESIGN.md §4 C02"),
+ "C03": ("exploration",
+         "bounded-exhaustive enumeration of variable-list layouts x storage relations x operators on the real code vs a by-name canonical form",
+         "All ordered pairs of operands over every ordered name list on 3 (4) names, every zero/non-zero pattern, shared and unshared storage, every binary operator and ==, for Dual and Dual2; all five vars_cmp classes must be non-empty or the run refuses to report.",
+         "Trusted: RefDual by-name model; derivative values from a fixed generic table (layouts exhaustive).",
+         "DESIGN.md §4 C03"),
+ "C17": ("exploration",
+         "bounded-exhaustive enumeration of (stored list, requested list) pairs on the real read-back functions; exact oracle",
+         "Every number layout on 3 (4) names against every requested ordered list over names + one absent name: gradient1, gradient2, gradient1_manifold compared exactly entry by entry; manifold product rule for every pair of a 3-name pool.",
+         "Trusted: nothing beyond the specification of the number (exact comparison).",
+         "DESIGN.md §4 C17"),
+ "C18": ("exploration",
+         "bounded-exhaustive enumeration of kind/order cells and operator x kind-pair table on the real container; differential oracle",
+         "All 3x3 order-change cells with tag lists, all From conversions, and every operator of the Number container on all 3x3 kind pairings are executed; arithmetic must be bit-identical to the contained types' operators and the two Dual/Dual2 arms must refuse.",
+         "Trusted: operators of the contained types (checked by C01-C03, C19).",
+         "DESIGN.md §4 C18"),
+
  "C19": ("exploration",
          "bounded-exhaustive enumeration of operand pairs/sequences on the real code vs a by-name reference model",
          "Every pair over a signed value table x derivative contents x operand form (dual-dual, dual-float, float-dual; Dual, Dual2, Number) is executed on the real operators and compared with float comparison / RefDual; every sequence up to length 4-5 for sum. Complete within that alphabet, silent on other magnitudes.",
